@@ -135,15 +135,34 @@ class MachineryBroken(Exception):
     pass
 
 
-def audit_coq():
-    """grep the whole Coq tree for anything that would declare an axiom or disable a check."""
+def import_closure(pid):
+    """all project .v files the property's Properties/Exec/Pins transitively Require"""
+    todo = [os.path.join(COQ, pid, f) for f in os.listdir(os.path.join(COQ, pid)) if f.endswith(".v")]
+    todo += [os.path.join(COQ, "Common", f) for f in os.listdir(os.path.join(COQ, "Common")) if f.endswith(".v")]
+    seen = set()
+    while todo:
+        p = todo.pop()
+        if p in seen or not os.path.exists(p):
+            continue
+        seen.add(p)
+        for m in re.finditer(r"MV\.(\w+)\.(\w+)", open(p, encoding="utf-8").read()):
+            todo.append(os.path.join(COQ, m.group(1), m.group(2) + ".v"))
+    return sorted(seen)
+
+
+def audit_coq(pid=None):
+    """grep the Coq files the property depends on (all of its directory, Common/, and everything
+    they import) for anything that would declare an axiom or disable a check."""
     problems = []
     section_depth_re = re.compile(r"^\s*(Section|End)\b")
-    for root, _, files in os.walk(COQ):
-        for f in files:
+    if pid is None:
+        paths = [os.path.join(r, f) for r, _, fs in os.walk(COQ) for f in fs]
+    else:
+        paths = import_closure(pid)
+    for path in paths:
+        for f in [os.path.basename(path)]:
             if not f.endswith(".v") or f.startswith("_"):
                 continue
-            path = os.path.join(root, f)
             txt = open(path, encoding="utf-8").read()
             # strip comments (nested) before grepping
             out, depth, i = [], 0, 0
@@ -291,6 +310,11 @@ def run_model(pid, triples, exec_mod="Exec", shard=250, extra_imports=(), tag="c
     d = os.path.join(CACHE, "cases", pid)
     os.makedirs(d, exist_ok=True)
     shards = [triples[i:i + shard] for i in range(0, len(triples), shard)]
+    try:
+        exec_src = open(os.path.join(COQ, pid, exec_mod + ".v")).read()
+    except OSError:
+        exec_src = ""
+    out_ty = " : OUT" if re.search(r"Definition\s+OUT\b", exec_src) else ""
 
     def one(k_sh):
         k, sh_ = k_sh
@@ -303,7 +327,7 @@ def run_model(pid, triples, exec_mod="Exec", shard=250, extra_imports=(), tag="c
             f.write("Set Printing Width 2000000.\nSet Printing Depth 1000000.\nSet Warnings \"-all\".\n")
             f.write("Open Scope N_scope.\n")
             for i, c, o in sh_:
-                f.write("Definition c%d := %s.\nDefinition o%d := %s.\n" % (i, c, i, o))
+                f.write("Definition c%d : case := %s.\nDefinition o%d%s := %s.\n" % (i, c, i, out_ty, o))
             f.write("Eval vm_compute in verdicts [%s].\n" % "; ".join("(%s, c%d, o%d)" % (cq_N(i), i, i) for i, _, _ in sh_))
         rc, out = coqc_file(path)
         if rc != 0:
@@ -511,7 +535,7 @@ def run(prop):
 def _run(prop, a, tier, seed, t0):
     pid = prop.pid
     # 1. audit + proofs
-    problems = audit_coq()
+    problems = audit_coq(pid)
     if problems:
         raise MachineryBroken("Coq audit failed:\n  " + "\n  ".join(problems))
     ok, log = coq_build(["Common/Hex.vo", "%s/Properties.vo" % pid, "%s/%s.vo" % (pid, prop.exec_mod)])
